@@ -14,6 +14,12 @@ CHECKS = {
   "Recorded deviations are excused only when the result equals the reference with exactly one named quirk switch on. Held on the cases generated.",
   "The reference model is calibrated to the docs and, where silent, to the pinned behaviour (detects change there); regions it marks out of domain are skipped and counted; read-traversal side effects are not modelled (mismatch there = inconclusive).",
   "DESIGN.md §5 C01, appendix A"),
+ "C02": ("exploration",
+  "lens-model monitor: addressed locations and the expected document are computed on a pure value model; the update laws are also checked model-free on yq's own before/after documents",
+  "Per case one law (put incl. frame condition and put-get, get-put, put-put, `|=` with a function table back-to-front, `op=`) over generated documents and paths "
+  "(keys, +/- indices, splats, multi-key, recursive descent with predicate, nested matches, to-be-created suffixes). Held on the cases generated.",
+  "Alias-free JSON-model documents; type-incompatible prefixes are outside the quantifier; writes over nested matches and non-finite floats are not asserted.",
+  "DESIGN.md §5 C02"),
  "C17": ("exploration",
   "real-consumer monitor: yq's @sh / -o=shell text is executed by dash and bash (strace execve watch + canary) and parsed by an independent POSIX word parser",
   "Each generated hostile string / document goes through the real encoder (library and binary); the shells must see exactly one word / exactly the "
